@@ -18,33 +18,45 @@ variable (parse : Bytes → Option Bundle)
 theorem bundle_fragKey (b : Bundle) (o t : Nat) (h : b.frag = some (o, t)) : fragKey b = (o, t) := by
   simp [fragKey, bOff, bTotal, h]
 
+theorem exec_push_index_same (s : State) (b : Bundle) (it : Item) (hg : get b.id s.index = some it)
+    (hc : pushCond b it = false) : (exec parse s (.push b)).index = s.index := by
+  cases hk : pushKnown b it with
+  | false => simp only [exec, plan_push_ignored parse s b it hg hc hk, runSteps]
+  | true =>
+    simp only [exec, plan_push_known parse s b it hg hk]
+    cases keepsStored parse s b with
+    | true => rfl
+    | false =>
+      show (runSteps s (replaceSteps _ _)).index = s.index
+      rw [run_replaceSteps]
+
 theorem fragments_collected {s : State} (h : Inv' parse s) {b : Bundle} (hwf : WF parse b)
     (hfr : b.frag.isSome = true)
     (hrec : ∀ it, get b.id s.index = some it → it.fragmented = true) :
-    ∃ it, get b.id (exec s (.push b)).index = some it ∧
+    ∃ it, get b.id (exec parse s (.push b)).index = some it ∧
       (it.parts.map (fun p => (p.off, p.total))).count (fragKey b) = 1 ∧
       ∃ p ∈ it.parts, (p.off, p.total) = fragKey b ∧
-        ∃ b', loadPart parse (exec s (.push b)) p = some b' ∧ b'.id = b.id ∧ b'.frag = b.frag := by
+        ∃ b', loadPart parse (exec parse s (.push b)) p = some b' ∧ b'.id = b.id ∧ b'.frag = b.frag := by
   have hinv := (exec_refines parse h (.push b) hwf).1
-  have key : ∃ it, get b.id (exec s (.push b)).index = some it ∧
+  have key : ∃ it, get b.id (exec parse s (.push b)).index = some it ∧ it.fragmented = true ∧
       ∃ p ∈ it.parts, (p.off, p.total) = fragKey b := by
     cases hg : get b.id s.index with
     | none =>
-      rw [exec_push_new s b hg]
-      exact ⟨newItem b, get_put_self _ _ _, partOf b, by simp [newItem], rfl⟩
+      rw [exec_push_new parse s b hg]
+      exact ⟨newItem b, get_put_self _ _ _, hfr, partOf b, by simp [newItem], rfl⟩
     | some it0 =>
       cases hc : pushCond b it0 with
       | true =>
-        rw [exec_push_frag s b it0 hg hc]
-        exact ⟨_, get_put_self _ _ _, partOf b, by simp, rfl⟩
+        rw [exec_push_frag parse s b it0 hg hc]
+        exact ⟨_, get_put_self _ _ _, hrec it0 hg, partOf b, by simp, rfl⟩
       | false =>
-        simp only [exec, plan_push_ignored s b it0 hg hc, runSteps]
-        refine ⟨it0, hg, ?_⟩
+        rw [exec_push_index_same parse s b it0 hg hc]
+        refine ⟨it0, hg, hrec it0 hg, ?_⟩
         simp only [pushCond, hfr, hrec it0 hg, Bool.true_and, Bool.not_eq_false',
           List.any_eq_true] at hc
         obtain ⟨p, hp, hsf⟩ := hc
         exact ⟨p, hp, by simpa [sameFrag] using hsf⟩
-  obtain ⟨it, hg, p, hp, hk⟩ := key
+  obtain ⟨it, hg, hfrg, p, hp, hk⟩ := key
   have ok := hinv.2 b.id it hg
   refine ⟨it, hg, ?_, p, hp, hk, ?_⟩
   · rw [List.Nodup.count ok.nodup, if_pos]
@@ -52,29 +64,6 @@ theorem fragments_collected {s : State} (h : Inv' parse s) {b : Bundle} (hwf : W
   · obtain ⟨b', hb', hid, hfrag⟩ := ok.readable p hp
     refine ⟨b', hb', hid, ?_⟩
     rw [hfrag, ok.names p hp]
-    have hfrg : it.fragmented = true := by
-      cases hf : it.fragmented with
-      | true => rfl
-      | false =>
-        -- an unfragmented item cannot be the record of an accepted fragment
-        exfalso
-        cases hg0 : get b.id s.index with
-        | none =>
-          rw [exec_push_new s b hg0] at hg
-          simp only at hg
-          rw [get_put_self] at hg; injection hg with hg
-          rw [← hg] at hf; simp [newItem, hfr] at hf
-        | some it0 =>
-          cases hc : pushCond b it0 with
-          | true =>
-            rw [exec_push_frag s b it0 hg0 hc] at hg
-            simp only at hg
-            rw [get_put_self] at hg; injection hg with hg
-            rw [← hg] at hf; simp [hrec it0 hg0] at hf
-          | false =>
-            simp only [exec, plan_push_ignored s b it0 hg0 hc, runSteps] at hg
-            rw [hg0] at hg; injection hg with hg
-            rw [← hg, hrec it0 hg0] at hf; cases hf
     simp only [hfrg, if_true]
     rw [hk, frag_eq b, if_pos hfr]; rfl
 
@@ -125,24 +114,24 @@ theorem complete_iff_covers {s : State} {id : Id} {it : Item} (ok : ItemOk parse
 
 /-! ### Two concurrent pushes under the store mutex are serialised -/
 
-def s12 (b1 b2 : Bundle) (s : State) : State := exec (exec s (.push b1)) (.push b2)
-def s21 (b1 b2 : Bundle) (s : State) : State := exec (exec s (.push b2)) (.push b1)
+def s12 (b1 b2 : Bundle) (s : State) : State := exec parse (exec parse s (.push b1)) (.push b2)
+def s21 (b1 b2 : Bundle) (s : State) : State := exec parse (exec parse s (.push b2)) (.push b1)
 
 /-- Invariant of every configuration reachable under the mutex. -/
 def SerialInv (b1 b2 : Bundle) (s : State) (c : Conf) : Prop :=
   match c.t1, c.t2 with
   | .idle, .idle => c.st = s
-  | .busy r, .idle => runSteps c.st r = exec s (.push b1)
-  | .done, .idle => c.st = exec s (.push b1)
-  | .idle, .busy r => runSteps c.st r = exec s (.push b2)
-  | .idle, .done => c.st = exec s (.push b2)
-  | .done, .busy r => runSteps c.st r = s12 b1 b2 s
-  | .busy r, .done => runSteps c.st r = s21 b1 b2 s
-  | .done, .done => c.st = s12 b1 b2 s ∨ c.st = s21 b1 b2 s
+  | .busy r, .idle => runSteps c.st r = exec parse s (.push b1)
+  | .done, .idle => c.st = exec parse s (.push b1)
+  | .idle, .busy r => runSteps c.st r = exec parse s (.push b2)
+  | .idle, .done => c.st = exec parse s (.push b2)
+  | .done, .busy r => runSteps c.st r = s12 parse b1 b2 s
+  | .busy r, .done => runSteps c.st r = s21 parse b1 b2 s
+  | .done, .done => c.st = s12 parse b1 b2 s ∨ c.st = s21 parse b1 b2 s
   | .busy _, .busy _ => False
 
 theorem serialInv_step (b1 b2 : Bundle) (s : State) (c : Conf) (who : Bool)
-    (h : SerialInv b1 b2 s c) : SerialInv b1 b2 s (cstep true b1 b2 c who) := by
+    (h : SerialInv parse b1 b2 s c) : SerialInv parse b1 b2 s (cstep parse true b1 b2 c who) := by
   obtain ⟨st, t1, t2⟩ := c
   cases who with
   | false =>
@@ -161,20 +150,20 @@ theorem serialInv_step (b1 b2 : Bundle) (s : State) (c : Conf) (who : Bool)
     | done => cases t1 <;> simp_all [SerialInv, cstep, tstep, TState.inside, exec, runSteps, s12, s21]
 
 theorem serialInv_run (b1 b2 : Bundle) (s : State) (sched : List Bool) :
-    SerialInv b1 b2 s (runSched true b1 b2 s sched) := by
-  have : ∀ c, SerialInv b1 b2 s c → SerialInv b1 b2 s (sched.foldl (cstep true b1 b2) c) := by
+    SerialInv parse b1 b2 s (runSched parse true b1 b2 s sched) := by
+  have : ∀ c, SerialInv parse b1 b2 s c → SerialInv parse b1 b2 s (sched.foldl (cstep parse true b1 b2) c) := by
     induction sched with
     | nil => intro c h; exact h
-    | cons w r ih => intro c h; exact ih _ (serialInv_step b1 b2 s c w h)
+    | cons w r ih => intro c h; exact ih _ (serialInv_step parse b1 b2 s c w h)
   exact this _ (by simp [SerialInv])
 
 /-- Under the mutex every schedule in which both pushes return ends in the state of one of the two
 sequential orders. -/
 theorem locked_serial (b1 b2 : Bundle) (s : State) (sched : List Bool)
-    (hfin : (runSched true b1 b2 s sched).finished = true) :
-    (runSched true b1 b2 s sched).st = s12 b1 b2 s ∨ (runSched true b1 b2 s sched).st = s21 b1 b2 s := by
-  have h := serialInv_run b1 b2 s sched
-  generalize runSched true b1 b2 s sched = c at h hfin
+    (hfin : (runSched parse true b1 b2 s sched).finished = true) :
+    (runSched parse true b1 b2 s sched).st = s12 parse b1 b2 s ∨ (runSched parse true b1 b2 s sched).st = s21 parse b1 b2 s := by
+  have h := serialInv_run parse b1 b2 s sched
+  generalize runSched parse true b1 b2 s sched = c at h hfin
   obtain ⟨st, t1, t2⟩ := c
   simp only [Conf.finished, Bool.and_eq_true, beq_iff_eq] at hfin
   obtain ⟨h1, h2⟩ := hfin
@@ -186,20 +175,21 @@ theorem locked_serial (b1 b2 : Bundle) (s : State) (sched : List Bool)
 theorem spec_push_fresh (m : SMap) (b : Bundle) (hfr : b.frag.isSome = true)
     (hfresh : ∀ r, get b.id m = some r → r.fragmented = true ∧ ∀ p ∈ r.parts, p.1 ≠ fragKey b) :
     ∃ r', get b.id (specStep m (.op (.push b))) = some r' ∧ r'.fragmented = true ∧
-      (∀ r, get b.id m = some r → r'.parts = r.parts ++ [(fragKey b, some b.bytes)]) ∧
-      (get b.id m = none → r'.parts = [(fragKey b, some b.bytes)]) := by
+      (∀ r, get b.id m = some r → r'.parts = r.parts ++ [(fragKey b, content b)]) ∧
+      (get b.id m = none → r'.parts = [(fragKey b, content b)]) := by
   cases hg : get b.id m with
   | none =>
-    refine ⟨⟨b.frag.isSome, [(fragKey b, some b.bytes)], false, b.expires, []⟩, ?_, hfr, ?_, ?_⟩
+    refine ⟨⟨b.frag.isSome, [(fragKey b, content b)], false, b.expires, []⟩, ?_, hfr, ?_, ?_⟩
     · simp only [specStep, hg]; exact get_put_self _ _ _
     · intro r hr; cases hr
     · intro _; rfl
   | some r =>
     obtain ⟨h1, h2⟩ := hfresh r hg
-    have hany : r.parts.any (fun p => p.1 == fragKey b) = false := by
+    have hany : hasKey (fragKey b) r.parts = false := by
+      simp only [hasKey]
       rw [List.any_eq_false]; intro p hp; simpa using h2 p hp
-    refine ⟨{ r with parts := r.parts ++ [(fragKey b, some b.bytes)] }, ?_, h1, ?_, ?_⟩
-    · simp only [specStep, hg, hfr, h1, hany, Bool.not_false, Bool.and_self, if_true]
+    refine ⟨{ r with parts := r.parts ++ [(fragKey b, content b)] }, ?_, h1, ?_, ?_⟩
+    · simp only [specStep, hg, hfr, h1, hany, Bool.and_self, if_true, Bool.false_eq_true, if_false]
       exact get_put_self _ _ _
     · intro r0 hr0; injection hr0 with hr0; subst hr0; rfl
     · intro hn; cases hn
@@ -210,7 +200,7 @@ theorem spec_two_pushes (m : SMap) (b1 b2 : Bundle) (hid : b1.id = b2.id)
     (hfresh : ∀ r, get b1.id m = some r → r.fragmented = true ∧
       ∀ p ∈ r.parts, p.1 ≠ fragKey b1 ∧ p.1 ≠ fragKey b2) :
     ∃ r, get b1.id (specStep (specStep m (.op (.push b1))) (.op (.push b2))) = some r ∧
-      (fragKey b1, some b1.bytes) ∈ r.parts ∧ (fragKey b2, some b2.bytes) ∈ r.parts := by
+      (fragKey b1, content b1) ∈ r.parts ∧ (fragKey b2, content b2) ∈ r.parts := by
   obtain ⟨r1, hg1, hfr1, hp1, hp1'⟩ := spec_push_fresh m b1 hf1
     (fun r hr => ⟨(hfresh r hr).1, fun p hp => ((hfresh r hr).2 p hp).1⟩)
   have hparts1 : ∀ p ∈ r1.parts, p.1 ≠ fragKey b2 := by
@@ -246,10 +236,10 @@ theorem concurrent_fragments {s : State} (h : Inv' parse s) (b1 b2 : Bundle)
     (hf1 : b1.frag.isSome = true) (hf2 : b2.frag.isSome = true)
     (hfresh : ∀ r, get b1.id (abs parse s) = some r → r.fragmented = true ∧
       ∀ p ∈ r.parts, p.1 ≠ fragKey b1 ∧ p.1 ≠ fragKey b2)
-    (sched : List Bool) (hfin : (runSched true b1 b2 s sched).finished = true) :
-    ∃ r, get b1.id (abs parse (runSched true b1 b2 s sched).st) = some r ∧
-      (fragKey b1, some b1.bytes) ∈ r.parts ∧ (fragKey b2, some b2.bytes) ∈ r.parts := by
-  rcases locked_serial b1 b2 s sched hfin with hs | hs
+    (sched : List Bool) (hfin : (runSched parse true b1 b2 s sched).finished = true) :
+    ∃ r, get b1.id (abs parse (runSched parse true b1 b2 s sched).st) = some r ∧
+      (fragKey b1, content b1) ∈ r.parts ∧ (fragKey b2, content b2) ∈ r.parts := by
+  rcases locked_serial parse b1 b2 s sched hfin with hs | hs
   · rw [hs]
     obtain ⟨h1, a1⟩ := exec_refines parse h (.push b1) hw1
     obtain ⟨_, a2⟩ := exec_refines parse h1 (.push b2) hw2
